@@ -165,3 +165,93 @@ from props import C08 as _c08
 FAMILIES.append(Family("foreign_logger", _c08.gen_foreign, _c08.impl_foreign, None, None, _c08.oracle_foreign,
                        lambda case, obs: json.dumps(case) if case["outer"] != "none" and any(o[0] in ("raw_badser", "child") for o in case["ops"]) else None,
                        shard=30, case_timeout=30))
+
+
+# ---- a typed action finished explicitly while it is still current, its end message failing to serialize: the two reports
+# belong to the current context (that action) -------------------------------------------------------------------------------
+def gen_finish_current(rng, tier):
+    out = [{"how": how, "before": 1, "after": 1, "outer": True, "bad": bad, "extractor_none": en}
+           for how in ("context", "run", "with") for bad in ("raises", "missing") for en in (False, True)]
+    for _ in range(8 if tier == "quick" else 120):
+        out.append({"how": rng.choice(["context", "run", "with"]), "before": rng.randrange(0, 3), "after": rng.randrange(0, 3),
+                    "outer": rng.random() < 0.7, "bad": rng.choice(["raises", "missing"]),
+                    # an exception extractor registered for the serializer's exception class that is itself broken
+                    # (returns None instead of a dictionary)
+                    "extractor_none": rng.random() < 0.3})
+    return out
+
+
+def impl_finish_current(case):
+    from eliot import _output, start_action, log_message, ActionType, Field
+    d = _output.Destinations()
+    _output.Logger._destinations = d
+    got = []
+    d.add(lambda m: got.append(dict(m)))
+
+    class Bad(Exception):
+        pass
+
+    def boom(v):
+        raise Bad("cannot serialize")
+    if case.get("extractor_none"):
+        from eliot import register_exception_extractor
+        register_exception_extractor(Bad, lambda e: None)
+    T = ActionType("fc:typed", [Field("a", lambda v: v, "")], [Field("b", boom if case["bad"] == "raises" else (lambda v: v), "")], "")
+    raised = []
+
+    def body():
+        a = T(a=1)
+        prefix = None
+
+        def inside():
+            for _ in range(case["before"]):
+                log_message("fc:before")
+            if case["bad"] == "raises":
+                a.add_success_fields(b=2)
+            a.finish()                      # the declared success field fails to serialize / is missing
+            for _ in range(case["after"]):
+                log_message("fc:after")
+        if case["how"] == "context":
+            with a.context():
+                inside()
+        elif case["how"] == "run":
+            a.run(inside)
+        else:
+            with a:
+                inside()
+    try:
+        if case["outer"]:
+            with start_action(action_type="fc:outer"):
+                body()
+        else:
+            body()
+    except BaseException as e:
+        raised.append("%s: %s" % (type(e).__name__, e))
+    return {"raised": raised,
+            "msgs": [[m.get("task_uuid"), m.get("task_level"), m.get("message_type") or m.get("action_type"), m.get("action_status")] for m in got]}
+
+
+def oracle_finish_current(case, obs):
+    if obs["raised"]:
+        return "a logging call raised: %s" % obs["raised"][0]
+    starts = [m for m in obs["msgs"] if m[2] == "fc:typed" and m[3] == "started"]
+    if len(starts) != 1:
+        return "typed action logged %d start messages" % len(starts)
+    u, prefix = starts[0][0], starts[0][1][:-1]
+    if any(m[2] == "fc:typed" and m[3] in ("succeeded", "failed") for m in obs["msgs"]):
+        return "the end message whose serialization failed was delivered"
+    reports = [m for m in obs["msgs"] if m[2] in ("eliot:traceback", "eliot:serialization_failure")]
+    want = ["eliot:serialization_failure", "eliot:traceback"]
+    if case.get("extractor_none") and case["bad"] == "raises":
+        want.append("eliot:traceback")       # the broken extractor's own failure is logged as well
+    if sorted(m[2] for m in reports) != want:
+        return "expected %r, got %r" % (want, [m[2] for m in reports])
+    for m in reports:
+        if m[0] != u or m[1][:-1] != prefix:
+            return ("%s logged at %r of task %s: the action that was current when finish() failed to serialize is %r of task %s"
+                    % (m[2], m[1], m[0][:8], prefix, u[:8]))
+    return None
+
+
+FAMILIES.append(Family("finish_while_current", gen_finish_current, impl_finish_current, None, None, oracle_finish_current,
+                       lambda case, obs: json.dumps(case), shard=6, case_timeout=30))
